@@ -172,7 +172,14 @@ func (r *Result) Sample(s string) {
 	}
 }
 func (r *Result) Mismatch(m Mismatch) {
-	if len(r.Mismatches) < 50 {
+	// keep at most 40 plain disagreements, but always room for (up to 40) concrete property violations
+	n := 0
+	for _, x := range r.Mismatches {
+		if (x.Oracle == "violates") == (m.Oracle == "violates") {
+			n++
+		}
+	}
+	if n < 40 {
 		r.Mismatches = append(r.Mismatches, m)
 	}
 }
